@@ -14,6 +14,15 @@ def _rayon(n):
 
 
 PLAN = {
+    "C08": {
+        "level": "model_checking",
+        "engines": lambda tier: [_e("release", "pipemc", "c08")],
+        "assumptions": [
+            "the pipeline model (appendix B of DESIGN.md) abstracts what happens inside one compression call; every model trace replayed is confirmed step by step through Progress callbacks, and a divergence is a MACHINERY-ERROR, never a verdict",
+            "worker count is set through the CPU affinity mask (taskset): W in {1,2,3} exhaustively (quick: at most 40 arrival orders per program), W in {7,15} with 6 orders per program in thorough",
+            "a 20 s watchdog only turns a real deadlock into a verdict (all gates are then opened to tell a deadlock from a model mis-prediction)",
+        ],
+    },
     "C14": {
         "level": "translation_validation",
         "engines": lambda tier: [_e("script", "indep/c14.py", "c14", also_build=[("release", "corpusmc"), ("release", "codec")])],
